@@ -179,9 +179,16 @@ func (w *c02World) genPolicy(rng *kit.Rand, ns, name string) *c02Policy {
 }
 
 func (x *c02Run) writePolicy(p *c02Policy) {
-	x.v.Policy(p.Name, p.HCL(), p.NS)
+	x.putPolicy(p, p.HCL())
 	p.Exists = true
 	x.w.Policies[p.NS+"|"+p.Name] = p
+}
+
+// putPolicy writes an ACL policy document together with the policy's two template opt-ins.
+func (x *c02Run) putPolicy(p *c02Policy, hcl string) {
+	x.v.MustDo(vReq{Op: logical.UpdateOperation, Path: "sys/policies/acl/" + p.Name, Token: x.v.Root, NS: p.NS, Data: map[string]any{
+		"policy": hcl, "allow_slashes_in_identity_templates": p.AllowSlashes, "allow_wildcards_in_identity_templates": p.AllowWildcards,
+	}})
 }
 
 // discoverPrefix finds the physical storage prefix of a mount by a tagged marker write.
@@ -490,6 +497,8 @@ func (x *c02Run) build() {
 		}
 		// callers that hold the token endpoints in their own namespace / on a descendant's path, and tokens to name
 		x.handleCallers(ns, nsTag)
+		// entities with hostile identity values holding templated policies
+		x.templFamily(ns, nsTag)
 	}
 	// token trees that cross namespace boundaries
 	x.treeFamily()
@@ -543,12 +552,64 @@ func (x *c02Run) rulesOf(t *c02Tok) []string {
 	}
 	for _, n := range names {
 		if p := x.w.policy(t.NS, n); p != nil {
-			for _, r := range p.Rules {
-				out = append(out, p.NS+r.Pat+"\x00"+strings.Join(r.Caps, ","))
-			}
+			out = append(out, x.ruleStrings(t, p)...)
 		}
 	}
 	return out
+}
+
+// ruleStrings: "absolute pattern NUL capabilities" of policy p as token t holds it. A templated
+// block appears as the reference renders it and, when that differs, as it would read if the
+// substituted value were not checked (requests aimed there must be refused).
+func (x *c02Run) ruleStrings(t *c02Tok, p *c02Policy) []string {
+	var out []string
+	for _, r := range p.Rules {
+		caps := "\x00" + strings.Join(r.Caps, ",")
+		if !strings.Contains(r.Pat, "{{") {
+			out = append(out, p.NS+r.Pat+caps)
+			continue
+		}
+		var e *c02Entity
+		if t != nil {
+			e = t.Entity
+		}
+		real, ok := c02Render(r.Pat, e, !p.AllowSlashes, !p.AllowWildcards)
+		if ok {
+			out = append(out, p.NS+real+caps)
+		}
+		if naive, ok2 := c02Render(r.Pat, e, false, false); ok2 && (!ok || naive != real) {
+			out = append(out, p.NS+naive+caps)
+		}
+	}
+	return out
+}
+
+// naiveTemplateGrant: a templated block of the token's policies that the reference drops would,
+// rendered without the check of the substituted value, match the path.
+func (x *c02Run) naiveTemplateGrant(t *c02Tok, abs string) string {
+	if t == nil || t.Entity == nil {
+		return ""
+	}
+	for _, n := range append(append([]string(nil), t.Policies...), c02EntPols(t)...) {
+		p := x.w.policy(t.NS, n)
+		if p == nil || !p.Exists {
+			continue
+		}
+		for _, r := range p.Rules {
+			if !strings.Contains(r.Pat, "{{") {
+				continue
+			}
+			if _, ok := c02Render(r.Pat, t.Entity, !p.AllowSlashes, !p.AllowWildcards); ok {
+				continue
+			}
+			if naive, ok := c02Render(r.Pat, t.Entity, false, false); ok {
+				if m, _ := c02Match(p.NS+naive, abs); m {
+					return fmt.Sprintf("policy %s block %q renders to %q only if the value were not checked (allow_slashes=%v allow_wildcards=%v)", p.Name, r.Pat, naive, p.AllowSlashes, p.AllowWildcards)
+				}
+			}
+		}
+	}
+	return ""
 }
 
 func (x *c02Run) pickTok() *c02Tok {
@@ -582,10 +643,7 @@ func (x *c02Run) genReq(tok *c02Tok, directed bool, from *c02Policy) *c02Req {
 		}
 	}
 	if from != nil {
-		rules = nil
-		for _, ru := range from.Rules {
-			rules = append(rules, from.NS+ru.Pat+"\x00"+strings.Join(ru.Caps, ","))
-		}
+		rules = x.ruleStrings(tok, from)
 	}
 	switch n := rng.Intn(100); {
 	case (directed || n < 45) && len(rules) > 0:
@@ -692,6 +750,9 @@ func (x *c02Run) genReq(tok *c02Tok, directed bool, from *c02Policy) *c02Req {
 			abs += "/.."
 		}
 		q.Why += " +hostile-form"
+	} else if rng.Chance(1, 8) {
+		abs = c02DotForm(rng, abs)
+		q.Why += " +dot-form"
 	}
 	// split into header + path
 	var heads []string
@@ -846,6 +907,9 @@ func (x *c02Run) check(q *c02Req, vd *c02Verdict, o *c02Outcome, stage string) b
 	x.nreq++
 	r.Eval(1)
 	bad := func(class, what string) bool {
+		if vd.Kind == "deny" && vd.Reason == "early:relative-path" && (len(o.Handlers) > 0 || o.OK || o.Changed) {
+			class = "C02-relative-path-segment-reached-backend"
+		}
 		if vd.Kind == "deny" && q.Tok != nil && !q.Tok.Forged {
 			switch {
 			case strings.HasPrefix(vd.Reason, "token:parent-") && (len(o.Handlers) > 0 || o.OK || o.Carries):
@@ -858,6 +922,9 @@ func (x *c02Run) check(q *c02Req, vd *c02Verdict, o *c02Outcome, stage string) b
 					anc = anc.Up
 				}
 				what += fmt.Sprintf(" [the token of namespace %q is a descendant of %s (namespace %q) whose tree revocation reported success]", q.Tok.NS, c02TokName(anc), c02NSOf(anc))
+			case strings.HasPrefix(vd.Reason, "policy") && x.naiveTemplateGrant(q.Tok, vd.Abs) != "" && (len(o.Handlers) > 0 || o.OK || o.Carries):
+				class = "C02-templated-policy-block-honoured-with-forbidden-identity-value"
+				what += " [" + x.naiveTemplateGrant(q.Tok, vd.Abs) + "]"
 			case q.Tok.Root && q.Tok.NS != "" && strings.Contains(vd.Reason, "root policy of another namespace"):
 				class = "C02-namespace-root-policy-honoured-outside-its-subtree"
 				what += fmt.Sprintf(" [the token carries the root policy of namespace %q; the request resolves to namespace %q]", q.Tok.NS, vd.NS)
@@ -910,6 +977,21 @@ func (x *c02Run) check(q *c02Req, vd *c02Verdict, o *c02Outcome, stage string) b
 				r.Count("nsroot_outside_subtree_refused:"+rel, 1)
 				r.Count("nsroot_outside_subtree_refused_on:"+on, 1)
 				r.Nontrivial("nsroot|" + t.Name + "|" + rel + "|" + q.Op + "|" + vd.Abs)
+			}
+		}
+	}
+	if t := q.Tok; t != nil && !t.Forged && !early && (t.Kind == "templated" || (t.Entity != nil && t.Entity.EName != "")) {
+		r.Count("templated_judged:"+vd.Kind, 1)
+		if vd.Kind == "deny" && strings.HasPrefix(vd.Reason, "policy") && x.naiveTemplateGrant(t, vd.Abs) != "" {
+			r.Count("templated_refused_where_only_an_unchecked_value_would_grant", 1)
+			r.Nontrivial("templ-deny|" + t.Name + "|" + q.Op + "|" + vd.Abs)
+		}
+		if vd.Kind == "allow" && len(o.Handlers) == 1 && strings.Contains(vd.Reason, "policy: ") {
+			for _, ru := range x.rulesOf(t) {
+				if strings.HasPrefix(ru, strings.TrimPrefix(vd.Reason, "policy: ")+"\x00") {
+					r.Count("templated_or_entity_token_authorised_handled", 1)
+					break
+				}
 			}
 		}
 	}
@@ -1165,7 +1247,7 @@ func (x *c02Run) mutate() {
 							np.Rules = append(np.Rules, c02Rule{Pat: ru.Pat, Caps: c02GenCaps(rng), Expire: ru.Expire})
 						}
 					}
-					v.Policy(p.Name, np.HCL(), p.NS)
+					x.putPolicy(p, np.HCL())
 					p.Rules = np.Rules
 				}})
 				cs = append(cs, cand{name: "policy-delete", tok: t, pol: p, apply: func() {
@@ -1174,7 +1256,7 @@ func (x *c02Run) mutate() {
 				}})
 			} else {
 				cs = append(cs, cand{name: "policy-recreate", tok: t, pol: p, apply: func() {
-					v.Policy(p.Name, p.HCL(), p.NS)
+					x.putPolicy(p, p.HCL())
 					p.Exists = true
 				}})
 			}
@@ -1206,6 +1288,62 @@ func (x *c02Run) mutate() {
 			t.Kind = "revoked"
 			x.killTree(t) // auth/token/revoke, revoke-accessor and revoke-self are tree revocations
 		}})
+	}
+	// templated policies: an opt-in of a policy flips; an identity value of an entity changes
+	{
+		var tps []*c02Policy
+		for _, k := range c02SortedKeys(w.Policies) {
+			if p := w.Policies[k]; p.Exists && p.templated() {
+				tps = append(tps, p)
+			}
+		}
+		if len(tps) > 0 {
+			p := kit.Pick(rng, tps)
+			if t := holder(p); t != nil && t.Entity != nil {
+				cs = append(cs, cand{name: "template-optin-flip", tok: t, pol: p, apply: func() {
+					if rng.Chance(1, 2) {
+						p.AllowWildcards = !p.AllowWildcards
+					} else {
+						p.AllowSlashes = !p.AllowSlashes
+					}
+					x.putPolicy(p, p.HCL())
+				}})
+			}
+		}
+		var ets []*c02Tok
+		for _, t := range w.Toks {
+			if t.Entity != nil && t.Entity.EName != "" && !t.Revoked {
+				ets = append(ets, t)
+			}
+		}
+		if len(ets) > 0 {
+			t := kit.Pick(rng, ets)
+			cs = append(cs, cand{name: "entity-identity-change", tok: t, apply: func() {
+				e := t.Entity
+				if rng.Chance(1, 2) {
+					meta := map[string]string{"team": "t1", "k": kit.Pick(rng, c02HostileValues)}
+					if rng.Chance(1, 5) {
+						delete(meta, "k")
+					}
+					x.setIdentity(e, "", meta, nil)
+					return
+				}
+				used := map[string]bool{}
+				for _, o := range w.Entities {
+					if o.NS == e.NS {
+						used[o.EName] = true
+					}
+				}
+				for _, n := range c02HostileValues {
+					if !used[n] {
+						x.setIdentity(e, n, nil, nil)
+						return
+					}
+				}
+				x.moves++
+				x.setIdentity(e, fmt.Sprintf("renamed+%d", x.moves), nil, nil)
+			}})
+		}
 	}
 	// revocation of the service token a batch token hangs off, with and without a storage fault
 	{
@@ -1561,6 +1699,11 @@ func c02RunTopology(t *testing.T, r *kit.Result, seed int64, stream uint64, case
 	if x.aborted {
 		return
 	}
+	x.templSweep("templ-sweep", 10)
+	x.dotSweep("dot-sweep", 3)
+	if x.aborted {
+		return
+	}
 	// expired tokens: wait until the harness has seen the clock pass their expiry
 	var latest time.Time
 	var short []*c02Tok
@@ -1634,7 +1777,7 @@ func c02RunTopology(t *testing.T, r *kit.Result, seed int64, stream uint64, case
 func TestVerif_C02_Requests(t *testing.T) {
 	seed := kit.Seed(2)
 	shard, _ := kit.Shard()
-	r := kit.NewResult(t, "c02-requests", seed, "generated namespace trees (depth<=3) x recording secrets/auth mounts at nested and sibling-prefix paths x generated ACL policies (exact, trailing-*, + segments, deny, sudo) x tokens in the states {absent, garbage, one character / one byte (head, middle, signature) flipped, truncated signature, revoked, expired, exhausted, exhausted with the queued revocation of the spent token failing once, last use, CIDR-bound, disabled entity, batch, batch mutated / expired, batch created by a service token that is live / revoked completely / revoked through a generated API flow with one storage fault at a generated operation index (the record stays marked in storage) / expired and reaped / expired with the expiry job failing once (record left) / use-limited (creation must be refused), other namespace, root, root policy of a child or grand-child namespace (namespace root token, its child and its orphan child) presented with every namespace of the tree on secrets, auth and system paths, descendant of a revoked ancestor in another namespace}; a sweep of token-handle requests (auth/token/{lookup, lookup-accessor, renew, renew-accessor, revoke, revoke-accessor, revoke-orphan} by callers that hold these paths only in their own namespace, only on the path of a descendant namespace, without sudo or as a generated mix, and by every other token of the world, naming tokens of every namespace in client form, internal form or by accessor, addressed to any namespace) judged on the namespace of the named token; every request (plain, rule-directed and hostile forms: trailing and doubled slashes, ./.. segments, mount-boundary, namespace by header or by path prefix, unknown namespaces, restricted sys APIs in child namespaces, internal operations) is judged by the reference authoriser and compared with handler log, response class, tagged physical writes and a digest of the recording mounts' storage; configuration changes (policy rewrite/delete/recreate, token revocation by id / accessor / self, revocation of the parent of a batch token by six API flows with and without a storage fault, revocation of an inner node of a token chain that crosses namespace boundaries (parent namespace -> namespace -> namespace / child namespace, 3-4 levels, optional extra leaves) by the same flows followed at once by every other node of the chain, entity disable and entity policies, unmount / mount / remount, one seal-unseal cycle with requests against the sealed core) are bracketed by the same request before and immediately after; three of four topologies run with the cache (and therefore the policy LRU) enabled, half on a transactional store. A case is non-trivial when (a) a request was refused only because of the token state while its policies allow it, (b) an authorised request reached the handler, or (c) a mutation flipped the verdict of the very next request; distinct by (state, op, mount, backend path)")
+	r := kit.NewResult(t, "c02-requests", seed, "generated namespace trees (depth<=3) x recording secrets/auth mounts at nested and sibling-prefix paths x generated ACL policies (exact, trailing-*, + segments, deny, sudo) x tokens in the states {absent, garbage, one character / one byte (head, middle, signature) flipped, truncated signature, revoked, expired, exhausted, exhausted with the queued revocation of the spent token failing once, last use, CIDR-bound, disabled entity, batch, batch mutated / expired, batch created by a service token that is live / revoked completely / revoked through a generated API flow with one storage fault at a generated operation index (the record stays marked in storage) / expired and reaped / expired with the expiry job failing once (record left) / use-limited (creation must be refused), other namespace, root, root policy of a child or grand-child namespace (namespace root token, its child and its orphan child) presented with every namespace of the tree on secrets, auth and system paths, descendant of a revoked ancestor in another namespace}; a sweep of token-handle requests (auth/token/{lookup, lookup-accessor, renew, renew-accessor, revoke, revoke-accessor, revoke-orphan} by callers that hold these paths only in their own namespace, only on the path of a descendant namespace, without sudo or as a generated mix, and by every other token of the world, naming tokens of every namespace in client form, internal form or by accessor, addressed to any namespace) judged on the namespace of the named token; templated policies (entity name / id / metadata, alias name / id, group name / id / metadata selectors; with and without the two opt-ins; several per token, attached to the token or to the entity, processed in generated name order) held by entities whose names, metadata values and alias names are drawn from {+, *, a/b, .., x*, unicode, .hid, b/, +/a, plain} and by a token without entity, with requests aimed at what each block renders to and at what it would render to if the value went unchecked; request paths with dot forms (an ordinary dot-prefixed segment followed by . or .., at every position, doubled slashes around them, ..a, ..., %2e%2e as ordinary segments) on every mount kind; every request (plain, rule-directed and hostile forms: trailing and doubled slashes, ./.. segments, mount-boundary, namespace by header or by path prefix, unknown namespaces, restricted sys APIs in child namespaces, internal operations) is judged by the reference authoriser and compared with handler log, response class, tagged physical writes and a digest of the recording mounts' storage; configuration changes (policy rewrite/delete/recreate, flip of the allow_slashes / allow_wildcards opt-in of a templated policy, change of the name or a metadata value of an entity, token revocation by id / accessor / self, revocation of the parent of a batch token by six API flows with and without a storage fault, revocation of an inner node of a token chain that crosses namespace boundaries (parent namespace -> namespace -> namespace / child namespace, 3-4 levels, optional extra leaves) by the same flows followed at once by every other node of the chain, entity disable and entity policies, unmount / mount / remount, one seal-unseal cycle with requests against the sealed core) are bracketed by the same request before and immediately after; three of four topologies run with the cache (and therefore the policy LRU) enabled, half on a transactional store. A case is non-trivial when (a) a request was refused only because of the token state while its policies allow it, (b) an authorised request reached the handler, or (c) a mutation flipped the verdict of the very next request; distinct by (state, op, mount, backend path)")
 	defer r.Write(t)
 	ntopo := kit.N(24, 100)
 	nreq := kit.N(800, 2500)
@@ -1678,6 +1821,18 @@ func TestVerif_C02_Requests(t *testing.T) {
 	r.Require("batch_refused_while_parent_record:absent", int64(ntopo*10))
 	r.Require("world_faults_fired", int64(ntopo*2))
 	r.Require("mutation_faults_fired", int64(ntopo))
+	r.Require("mutations:template-optin-flip", int64(ntopo*2))
+	r.Require("mutations:entity-identity-change", int64(ntopo*2))
+	r.Require("world_templated_families", int64(ntopo*2))
+	r.Require("templated_judged:allow", int64(ntopo*20))
+	r.Require("templated_judged:deny", int64(ntopo*60))
+	r.Require("templated_refused_where_only_an_unchecked_value_would_grant", int64(ntopo*10))
+	for _, f := range c02DotForms {
+		if f.relative {
+			r.Require("dot_form_refused:"+f.name, int64(ntopo*2))
+		}
+	}
+	r.Require("dot_form_ordinary:hidden-only:allow", int64(ntopo/2))
 	r.Require("wouldallow_refused:revoked-with-ancestor", int64(ntopo*10))
 	r.Require("mutation_tree_revocation:reported-success", int64(ntopo*2))
 	r.Require("world_trees", int64(ntopo*2))
